@@ -1,7 +1,196 @@
 import KitModel.Go.Prelude
-/-! Driver for property C09: `kitdrv C09` reads op lines on stdin, one answer line per input line. -/
+import KitModel.Coalescing
+/-!
+Driver for property C09: `kitdrv C09`.
+
+State-set simulation of `Kit.Coalescing.step` against an observed trace of the real limiter.
+One event per line, one answer per line (`ok n=<size of the state set>` or `reject …`; after a
+reject every line answers `dead` until the next `begin`).
+
+The model LTS is wrapped by the usual call/return layer: an API call is observed twice (call,
+return) and takes effect somewhere in between; a hook event reports an internal step that has
+already happened, and while the run loop sits in the hook callback it cannot move.
+
+```
+begin initial=<ns> max=<ns> cap=<n|0> hooks=<0|1>
+runcall | addcall | addret | closecall | closeret | cancel | runret
+adv t=<ns>            clock moved
+recv t=<ns>           consumer received a signal, stamped with the clock
+hin park=<0|1>        hook coalescing.inputHandled (park=1: the harness keeps the loop there)
+htm park=<0|1>        hook coalescing.timerHandled
+release               the harness lets a parked loop continue
+settle tok=<n> snd=<n> loop=<0|1> timer=<none|deadline>
+                      every goroutine of the limiter is blocked; counted from a goroutine dump,
+                      timer read from the fake clock
+f64 n=<n>             float64 rounding used by the back-off (independent of `begin`)
+```
+-/
 namespace Driver.C09
+open Kit Kit.Coalescing
+
+structure DState where
+  m : State
+  /-- `Add` calls issued whose critical section has not run yet. -/
+  pAdd : Nat := 0
+  /-- `Add` bodies done, return not yet observed. -/
+  rAdd : Nat := 0
+  /-- `Close` calls issued that have not closed yet. -/
+  pClose : Nat := 0
+  /-- handled tokens / expiries not yet reported by their hook. -/
+  uIn : Nat := 0
+  uTm : Nat := 0
+  /-- 0: loop free; 1: loop inside a hook callback, not yet reported; 2: parked by the harness. -/
+  blocked : Nat := 0
+  deriving BEq, Hashable, Repr
+
+structure Sim where
+  cfg : Config := { initial := 1, max := 1, cap := none }
+  hooks : Bool := false
+  states : List DState := []
+  dead : Bool := true
+  events : Nat := 0
+
+def loopLabel : Label → Bool
+  | .top | .deliver | .expire | .exitLoop => true
+  | _ => false
+
+def internalLabels : List Label :=
+  [.run, .top, .deliver, .tokenGiveUp, .expire, .exitLoop, .senderGiveUp]
+
+/-- One internal (unobserved) step of the wrapped system. -/
+def tauSucc (cfg : Config) (hooks : Bool) (d : DState) : List DState :=
+  let ms := internalLabels.filterMap fun l =>
+    if loopLabel l && d.blocked != 0 then none
+    else match step cfg d.m l with
+      | none => none
+      | some m' =>
+        match l with
+        | .deliver => if hooks then some { d with m := m', uIn := d.uIn + 1, blocked := 1 } else some { d with m := m' }
+        | .expire => if hooks then some { d with m := m', uTm := d.uTm + 1, blocked := 1 } else some { d with m := m' }
+        | _ => some { d with m := m' }
+  let a := if d.pAdd > 0 then
+      match step cfg d.m .add with
+      | some m' => [{ d with m := m', pAdd := d.pAdd - 1, rAdd := d.rAdd + 1 }]
+      | none => []
+    else []
+  let c := if d.pClose > 0 then
+      match step cfg d.m .close with
+      | some m' => [{ d with m := m', pClose := d.pClose - 1 }]
+      | none => []
+    else []
+  ms ++ a ++ c
+
+def insertNew (seen : List DState) (x : DState) : List DState × Bool :=
+  if seen.contains x then (seen, false) else (x :: seen, true)
+
+/-- τ-closure by worklist; `fuel` bounds the number of expansions (every τ step decreases a
+finite measure, so the closure is finite; the bound is never reached in practice and reaching it
+is reported as a reject by the caller through `fuelOut`). -/
+def closure (cfg : Config) (hooks : Bool) : Nat → List DState → List DState → List DState × Bool
+  | 0, todo, seen => (seen, todo.isEmpty)
+  | _ + 1, [], seen => (seen, true)
+  | fuel + 1, d :: todo, seen =>
+    let succs := tauSucc cfg hooks d
+    let (seen', todo') := succs.foldl (fun (acc : List DState × List DState) x =>
+      let (sn, isNew) := insertNew acc.1 x
+      if isNew then (sn, x :: acc.2) else acc) (seen, todo)
+    closure cfg hooks fuel todo' seen'
+
+def closeSet (cfg : Config) (hooks : Bool) (ds : List DState) : List DState × Bool :=
+  let ds := ds.eraseDups
+  closure cfg hooks 200000 ds ds
+
+def quiescent (cfg : Config) (hooks : Bool) (d : DState) : Bool :=
+  (tauSucc cfg hooks d).isEmpty && d.rAdd == 0 && d.uIn == 0 && d.uTm == 0 && d.blocked != 1
+  && (step cfg d.m .closeRet).isNone && (step cfg d.m .runRet).isNone
+
+inductive TimerObs where
+  | none | at (d : Nat)
+
+/-- Effect of one observed event on one state (`none` = this state cannot have produced it). -/
+def obsStep (cfg : Config) (hooks : Bool) (ln : Line) (d : DState) : Option DState :=
+  let viaModel (l : Label) : Option DState := (step cfg d.m l).map fun m' => { d with m := m' }
+  match ln.op with
+  | "runcall" => viaModel .runCall
+  | "addcall" => some { d with pAdd := d.pAdd + 1 }
+  | "addret" => if d.rAdd > 0 then some { d with rAdd := d.rAdd - 1 } else none
+  | "closecall" => some { d with pClose := d.pClose + 1 }
+  | "closeret" => viaModel .closeRet
+  | "cancel" => viaModel .cancel
+  | "runret" => viaModel .runRet
+  | "adv" => (ln.nat? "t").bind fun t => viaModel (.advance t)
+  | "recv" => (ln.nat? "t").bind fun t => if t == d.m.now then viaModel .consume else none
+  | "hin" =>
+    if hooks && d.uIn > 0 && d.blocked == 1 then
+      some { d with uIn := d.uIn - 1, blocked := if ln.nat? "park" == some 1 then 2 else 0 }
+    else none
+  | "htm" =>
+    if hooks && d.uTm > 0 && d.blocked == 1 then
+      some { d with uTm := d.uTm - 1, blocked := if ln.nat? "park" == some 1 then 2 else 0 }
+    else none
+  | "release" => if d.blocked == 2 then some { d with blocked := 0 } else none
+  | "settle" =>
+    let tok := ln.nat? "tok"
+    let snd := ln.nat? "snd"
+    let lp := ln.nat? "loop"
+    let tm : Option (Option Nat) :=
+      match ln.get? "timer" with
+      | some "none" => some none
+      | some v => v.toNat?.map some
+      | none => none
+    if quiescent cfg hooks d && d.pAdd == 0 && d.pClose == 0
+        && tok == some d.m.tokens && snd == some d.m.senders
+        && lp == some (if d.m.running then 1 else 0)
+        && tm == some d.m.timer then some d else none
+  | _ => none
+
+def showState (d : DState) : String :=
+  let m := d.m
+  let lp := match m.loop with | .off => "off" | .top => "top" | .sel => "sel" | .done => "done"
+  let tm := match m.timer with | none => "none" | some t => toString t
+  s!"[pend={m.pending} tok={m.tokens} timer={tm} cur={m.cur} fac={m.factor} ovf={m.ovf} fires={m.fires} snd={m.senders} cons={m.consumed} drop={m.dropped} adds={m.adds} now={m.now} closed={m.closed} canc={m.cancelled} loop={lp} cw={m.closeWaiting} cr={m.closeReturned} rr={m.runReturned} pAdd={d.pAdd} rAdd={d.rAdd} pClose={d.pClose} uIn={d.uIn} uTm={d.uTm} blk={d.blocked}]"
+
+def showSet (ds : List DState) : String :=
+  " ".intercalate ((ds.take 6).map showState)
+
+def handle (sim : Sim) (raw : String) : Sim × String :=
+  let ln := parseLine raw
+  match ln.op with
+  | "f64" =>
+    match ln.nat? "n" with
+    | some n => (sim, s!"f64 v={f64OfNat n}")
+    | none => (sim, "error bad f64")
+  | "backoff" =>
+    -- one application of the back-off block: initial max cur factor → cur factor ovf
+    match ln.nat? "initial", ln.nat? "max", ln.nat? "cur", ln.nat? "factor" with
+    | some i, some mx, some c, some f =>
+      let s := backoff { initial := i, max := mx, cap := none } { cur := c, factor := f }
+      (sim, s!"backoff cur={s.cur} factor={s.factor} ovf={if s.ovf then 1 else 0}")
+    | _, _, _, _ => (sim, "error bad backoff")
+  | "begin" =>
+    match ln.nat? "initial", ln.nat? "max", ln.nat? "cap", ln.nat? "hooks" with
+    | some i, some mx, some c, some h =>
+      let cfg : Config := { initial := i, max := mx, cap := if c == 0 then none else some c }
+      let hooks := h == 1
+      let (ds, _) := closeSet cfg hooks [{ m := init cfg }]
+      ({ cfg, hooks, states := ds, dead := false, events := 0 }, s!"ok n={ds.length}")
+    | _, _, _, _ => ({ sim with dead := true }, "error bad begin")
+  | "end" =>
+    if sim.dead then (sim, "dead") else ({ sim with dead := true }, s!"ok n={sim.states.length}")
+  | _ =>
+    if sim.dead then (sim, "dead")
+    else
+      let next := sim.states.filterMap (obsStep sim.cfg sim.hooks ln)
+      let (cl, complete) := closeSet sim.cfg sim.hooks next
+      if cl.isEmpty then
+        ({ sim with dead := true },
+          s!"reject event={sim.events} line={raw.trimAscii.toString} before={sim.states.length} states={showSet sim.states}")
+      else if !complete then
+        ({ sim with dead := true }, s!"reject event={sim.events} closure-fuel-exhausted")
+      else
+        ({ sim with states := cl, events := sim.events + 1 }, s!"ok n={cl.length}")
+
 def main (_args : List String) : IO UInt32 := do
-  IO.eprintln "kitdrv: C09 has no model driver yet"
-  return 2
+  lineLoop handle ({} : Sim)
+  return 0
 end Driver.C09
